@@ -684,6 +684,13 @@ fn samples(thorough: bool) -> Vec<Sample> {
     strings.push((format!("a{}b", c), format!("{}-in-the-middle", n)));
     strings.push((format!("ab{}", c), format!("{}-at-end", n)));
   }
+  // every control character (and DEL) alone, in the middle and doubled: hand-written escapers tend to special-case a few
+  for cp in (0u32..0x20).chain([0x7f]) {
+    let c = char::from_u32(cp).unwrap();
+    strings.push((c.to_string(), format!("control-{:02x}-alone", cp)));
+    strings.push((format!("a{}b", c), format!("control-{:02x}-in-the-middle", cp)));
+    strings.push((format!("{}{}", c, c), format!("control-{:02x}-doubled", cp)));
+  }
   for (c, n) in &sp {
     for (d, m) in &sp {
       if c != d {
@@ -754,6 +761,11 @@ fn samples(thorough: bool) -> Vec<Sample> {
       out.push(Sample { feel: f.clone(), expected: j.clone(), tck: Some(t.clone()), expected_tck: Some(jt.clone()), class: format!("{}:depth-{}", if f.starts_with('[') { "list" } else { "context" }, depth) });
     }
     level = next;
+  }
+  // context keys with control characters
+  for cp in [0x00u32, 0x07, 0x08, 0x0b, 0x0c, 0x1b, 0x1f] {
+    let key = format!("k{}q", char::from_u32(cp).unwrap());
+    out.push(Sample { feel: format!("{{{}: 1}}", feel_string(&key)), expected: Js::Obj(vec![(key.clone(), Js::Num("1".into()))]), tck: None, expected_tck: None, class: format!("context-key:control-{:02x}", cp) });
   }
   // awkward context keys
   for (key, class) in [("a b", "with-space"), ("k\"q", "with-quote"), ("k\\q", "with-backslash"), ("é日", "non-ascii"), ("tab\tkey", "with-tab"), ("x", "plain")] {
